@@ -4,7 +4,10 @@ Writes <outdir>/overlay-<kind>.json for `go build -overlay`.
  ovl:      adds internal/dsp/cpuid_amd64_verif.go (env VERIF_NOAVX2=1 clears hasAVX2 before the dispatch init runs)
  portable: maps every *_amd64.go / *_amd64.s to "deleted" and rewrites the `amd64` token in the //go:build line of every other
            file to an always-false tag, so the `!amd64` (pure Go) files are compiled: what a non-amd64, non-arm64 target builds.
-Never replaces the content of a file that exists in the repo except for the //go:build line rewrite of the portable variant."""
+Never replaces the content of a file that exists in the repo except for the //go:build line rewrite of the portable variant.
+ both:     when <verif>/overlay/ exists (next to tools/), its kernel-exerciser sources are injected as new files
+           (tag `verif`): dsp_verifkern.go -> internal/dsp/verifkern_verif.go, lossy_verifkern.go ->
+           internal/lossy/verifkern_verif.go, root_verifkern.go -> verifkern_verif.go. They never exist in the repo."""
 import json, os, re, sys
 repo, outdir, kind = sys.argv[1], sys.argv[2], sys.argv[3]
 repo = os.path.abspath(repo)
@@ -50,5 +53,14 @@ elif kind == 'portable':
                 p = os.path.join(outdir, 'portable_%d_%s' % (n, f))
                 open(p, 'w').write(out)
                 rep[full] = p
+# kernel-level exerciser (C13): extra files injected into the library's packages, same for every kind
+ovdir = os.environ.get('VERIF_OVERLAY_DIR') or os.path.join(os.path.dirname(os.path.dirname(os.path.abspath(__file__))), 'overlay')
+for srcname, dst in (('dsp_verifkern.go', 'internal/dsp/verifkern_verif.go'),
+                     ('lossy_verifkern.go', 'internal/lossy/verifkern_verif.go'),
+                     ('root_verifkern.go', 'verifkern_verif.go')):
+    sp = os.path.join(ovdir, srcname)
+    target = os.path.join(repo, dst)
+    if os.path.isfile(sp) and not os.path.exists(target):
+        rep[target] = sp
 json.dump({"Replace": rep}, open(os.path.join(outdir, 'overlay-%s.json' % kind), 'w'), indent=1)
 print(os.path.join(outdir, 'overlay-%s.json' % kind))
